@@ -487,11 +487,49 @@ fn gen_history(fs: Fs, r: &mut Rng, nops: usize, big: usize) -> Vec<Op> {
     ops
 }
 
+/// File contents.  Besides random bytes, shapes that sit on sector edges: periodic with the sector size `q`
+/// (128/256/512/1024) so that whole sectors are all-equal, or uniform except their first / last / middle byte;
+/// the phase compensates the 4-byte header DOS 3.x puts in front of binary data.  A file of length 1 mod `q`
+/// additionally leaves "one data byte, then padding" in its last sector (sizes q+1 are in the size list).
+fn content(fs: Fs, size: usize, seed: u64) -> (Vec<u8>, &'static str) {
+    let mut r = Rng::new(seed);
+    let shape = r.below(8);
+    let q = *r.pick(&[128usize, 256, 512, 1024]);
+    let phase = match fs { Fs::Dos32 | Fs::Dos33 => 4, _ => 0 };
+    let c = 1 + r.below(254) as u8;
+    let x = if r.chance(50) { 0 } else { c.wrapping_add(1 + r.below(200) as u8) };
+    let periodic = |hit: usize| -> Vec<u8> { (0..size).map(|i| if (i + phase) % q == hit { x } else { c }).collect() };
+    match shape {
+        0 | 1 => (r.bytes(size), "random"),
+        2 => (vec![c; size], "all-equal"),
+        3 => (periodic(0), "first-byte-of-sector-differs"),
+        4 => (periodic(q - 1), "last-byte-of-sector-differs"),
+        5 => (periodic(q / 2), "middle-byte-of-sector-differs"),
+        6 => { let mut v = vec![0u8; size]; if size > 0 { v[size - 1] = c; } (v, "zero-then-one-byte") }
+        _ => { let mut v = vec![c; size]; if size > 0 { v[0] = x; } (v, "first-byte-of-file-differs") }
+    }
+}
+
+/// what every CLI command does between two operations: serialise the image and load it again
+fn reopen(fs: Fs, container: &str, disk: &mut Box<dyn DiskFS>, kind: &DiskKind) -> Result<Box<dyn DiskFS>, String> {
+    let ext = match container { "woz1" | "woz2" => "woz", c if c.starts_with("2mg") => "2mg", c => c };
+    let bytes = disk.get_img().to_bytes();
+    let img = a2kit::create_img_from_bytestream(&bytes, Some(ext)).map_err(errs)?;
+    Ok(match fs {
+        Fs::Dos32 | Fs::Dos33 => Box::new(dos3x::Disk::from_img(img).map_err(errs)?),
+        Fs::Prodos => Box::new(prodos::Disk::from_img(img).map_err(errs)?),
+        Fs::Pascal => Box::new(pascal::Disk::from_img(img).map_err(errs)?),
+        Fs::Cpm2 => Box::new(cpm::Disk::from_img(img, dpb::DiskParameterBlock::create(kind), [2, 2, 3]).map_err(errs)?),
+        Fs::Cpm3 => Box::new(cpm::Disk::from_img(img, dpb::DiskParameterBlock::create(kind), [3, 1, 0]).map_err(errs)?),
+        Fs::Fat => Box::new(fat::Disk::from_img(img, None).map_err(errs)?),
+    })
+}
+
 fn apply(fs: Fs, disk: &mut Box<dyn DiskFS>, op: &Op) -> String {
     let res = guarded(|| -> Result<(), String> {
         match op {
             Op::Put(path, size, seed) => {
-                let dat = Rng::new(*seed).bytes(*size);
+                let (dat, _) = content(fs, *size, *seed);
                 let addr = match fs { Fs::Dos32 | Fs::Dos33 | Fs::Prodos => Some(0x2000), _ => None };
                 disk.bsave(path, &dat, addr, None).map(|_| ()).map_err(errs)
             }
@@ -606,6 +644,7 @@ fn part_histories(ctx: &mut Ctx, rng: &mut Rng, idx: &mut usize) {
                     Op::Rename(old, nb) => p.push(match old.rfind('/') { Some(q) => format!("{}/{}", &old[..q], nb), None => nb.clone() }), _ => {} } }
                 p.sort(); p.dedup(); p
             };
+            for o in &ops { if let Op::Put(_, size, seed) = o { ctx.out.count(&format!("content:{}", content(cfg.fs, *size, *seed).1)); } }
             let dirs: Vec<String> = ops.iter().filter_map(|o| if let Op::Mkdir(d) = o { Some(d.clone()) } else { None }).collect();
             let case = format!("idx={} fs={} kind={} containers={} ops={:?}", me, cfg.fs.id(), cfg.kind_name, cfg.containers.join("+"), ops);
             let mut views: Vec<View> = Vec::new();
@@ -622,7 +661,22 @@ fn part_histories(ctx: &mut Ctx, rng: &mut Rng, idx: &mut usize) {
                     Err(p) => { unsupported += 1; views.push(View { name: c.to_string(), op_results: vec![format!("format-panic:{}", panic_site(&p))], blocks: vec![], sectors: vec![], sector_view: false, files: vec![], catalog: String::new() }); continue; }
                 };
                 let mut results = vec!["format-ok".to_string()];
-                for o in &ops { results.push(apply(cfg.fs, &mut disk, o)); }
+                // the image is flattened and re-opened in the middle and at the end of the history
+                let mut lost = false;
+                for (k, o) in ops.iter().enumerate() {
+                    results.push(apply(cfg.fs, &mut disk, o));
+                    if k + 1 == ops.len() / 2 || k + 1 == ops.len() {
+                        match guarded(|| reopen(cfg.fs, c, &mut disk, &cfg.kind)) {
+                            Ok(Ok(d)) => { disk = d; results.push("reopen-ok".to_string()); }
+                            Ok(Err(e)) => { results.push(format!("reopen-err:{}", e)); lost = true; break; }
+                            Err(p) => { results.push(format!("reopen-panic:{}", panic_site(&p))); lost = true; break; }
+                        }
+                    }
+                }
+                if lost {
+                    views.push(View { name: c.to_string(), op_results: results, blocks: vec![], sectors: vec![], sector_view: false, files: vec![], catalog: String::new() });
+                    continue;
+                }
                 let v = observe(cfg.fs, c, &mut disk, &cfg.kind, results, &paths, &dirs);
                 if !v.sector_view { po_views.push((c.to_string(), po_sector_view(&mut disk, &cfg.kind))); }
                 views.push(v);
